@@ -435,6 +435,26 @@ def _check_four_index(ctx):
                 what = f"stores something else than the value at {sorted(wrong)}" if wrong else (
                     f"sets {sorted(got - want) or 'nothing extra'} beyond the orbit and leaves {sorted(want - got) or 'nothing'} of it at the old content")
                 bad = bad or (idx, vname, what)
+        # the array the caller hands in need not be C-contiguous: a Fortran-ordered array and a transposed view
+        # (a flat view of such an array is a copy: writes through it are lost)
+        for lname, make in (("Fortran-ordered", lambda: np.asfortranarray(before.copy())), ("a transposed view", lambda: before.copy().transpose(3, 1, 2, 0))):
+            for idx in [(0, 1, 2, 3), (1, 1, 2, 0), (3, 0, 0, 2), (2, 2, 2, 2)]:
+                arr = make()
+                ref = arr.copy()
+                ev = AccessorEval(prog, None)
+                ev.module = f.module
+                v = Sym.atom("v")
+                try:
+                    ev.run_free(f, [arr] + list(idx) + [v], {})
+                except Raised as exc:
+                    bad = bad or (idx, f"v ({lname} array)", f"raises {exc.cls}")
+                    continue
+                got = {tuple(int(x) for x in pos) for pos in np.ndindex(4, 4, 4, 4) if not (Sym.const(arr[pos]) == ref[pos])}
+                i, j, k, l = idx
+                want = {(i, j, k, l), (j, i, l, k), (k, l, i, j), (l, k, j, i), (k, j, i, l), (l, i, j, k), (i, l, k, j), (j, k, l, i)}
+                n += 1
+                if got != want or any(not (Sym.const(arr[pos]) == v) for pos in got):
+                    bad = bad or (idx, f"v ({lname} array)", f"changes {sorted(got)[:3]}{'...' if len(got) > 3 else ''} ({len(got)} positions) instead of the eight positions of the orbit: the caller's array is not (fully) written")
     except NotSymbolic as exc:
         raise AnalysisError(f"set_four_index_element is outside the evaluation whitelist: {exc}") from exc
     if bad:
@@ -569,3 +589,25 @@ def _check_naturals_evaluated(ctx):
         ctx.violate("R5", f"derive_naturals: {bad}: orbitals and occupations are paired wrongly (or altered)", dn, dn.node, construct=f"derive_naturals pairing: {bad}"[:160])
     else:
         ctx.ok("R5", "derive_naturals (solver stubbed, symbolic 2x2 D and S): solves (S D S) c = n S c and returns eigenvector k with eigenvalue k, unaltered", where)
+    # the same with numbers and an overlap matrix of *integer* dtype (the identity of an orthonormal basis): what the
+    # solver returns must come back unaltered -- eigenvectors filled into an array created "like" the overlap are
+    # truncated to integers
+    s_int = np.identity(2, dtype=int)
+    d_num = np.array([[1.5, 0.25], [0.25, 0.5]])
+    nevals = np.array([0.25, 1.75])
+    nevecs = np.array([[0.6, -0.8], [0.8, 0.6]])
+    ev = AccessorEval(prog, None, limit=2000)
+    ev.module = dn.module
+    ev.ext_stubs = {"scipy.linalg.eigh": lambda args, kw: (nevals.copy(), nevecs.copy())}
+    try:
+        c2, o2 = ev.run_free(dn, [d_num, s_int], {})
+    except Raised as exc:
+        ctx.violate("R5", f"derive_naturals raises {exc.args[0]} for an integer-typed identity overlap", dn, dn.node, construct="derive_naturals raises (integer overlap)")
+        return
+    except (NotSymbolic, TypeError, ValueError) as exc:
+        raise AnalysisError(f"derive_naturals is outside the evaluation whitelist on numbers: {exc}") from exc
+    c2 = np.asarray(c2, dtype=float)
+    if c2.shape != (2, 2) or np.abs(c2 - nevecs).max() > 1e-12 or np.abs(np.asarray(o2, dtype=float) - nevals).max() > 1e-12:
+        ctx.violate("R5", f"derive_naturals with an overlap matrix of integer dtype returns the coefficients {c2.tolist()} where the solver gave {nevecs.tolist()}: the eigenvectors are cast to the dtype of the overlap argument", dn, dn.node, construct="derive_naturals: eigenvectors altered for an integer overlap")
+    else:
+        ctx.ok("R5", "derive_naturals returns the solver's eigenvectors unaltered also for an overlap of integer dtype", where, sample=False)
